@@ -734,6 +734,69 @@ def _wiring(ctx, acm):
                    construct='cache events processed')
 
 
+def _starts_idle(ctx, acm):
+    """C13.5: the manager becomes active only through the first
+    synchronisation: `_is_active` is set True by _first_sync alone and the
+    service loop starts with it False - a manager that starts active (the
+    ready marker is already there after a restart) never reconciles the
+    running links with what the cache became while it was down."""
+    stores = []
+    for func in acm.live_methods():
+        for sub in K.walk_no_nested(func.raw):
+            if isinstance(sub, ast.Assign) and any(
+                    N.txt(t) == 'self._is_active' for t in sub.targets):
+                stores.append((func, sub))
+    ctx.require(stores, 'stores of AppCfgMgr._is_active', rule='C13.5')
+    for func, sub in stores:
+        val = sub.value
+        const = isinstance(val, ast.Constant) and isinstance(val.value, bool)
+        ok = const and (val.value is False or func.name == '_first_sync')
+        ctx.ob('C13.5', func, sub, ok,
+               '_is_active is set to a constant, True only by _first_sync '
+               '(%s in %s)' % (N.txt(val), func.name),
+               construct='activation only through the first sync')
+    run = acm.methods.get('run')
+    ctx.require(run is not None, 'AppCfgMgr.run', rule='C13.5')
+    first = [sub for f, sub in stores if f is run]
+    ctx.ob('C13.5', run, first[0] if first else None,
+           bool(first) and all(isinstance(s.value, ast.Constant) and
+                               s.value.value is False for s in first),
+           'the service loop starts idle', construct='manager starts idle')
+
+
+def _queue_dispatch(ctx):
+    """C13.5: an event taken off the watcher's queue is dispatched: after the
+    pop, every path of the iteration reaches the comparison of the event
+    with the kinds the handlers are registered for (an event popped and then
+    dropped - at the batch limit, say - is a created or deleted manifest the
+    manager never hears of)."""
+    mod = ctx.index.module('treadmill.dirwatch.dirwatch_base')
+    cls = mod.classes.get('DirWatcher') if mod else None
+    func = cls.methods.get('process_events') if cls else None
+    ctx.require(func is not None, 'DirWatcher.process_events', rule='C13.5')
+    graph = ctx.cfg(func)
+    pops = [n for n, c in K.nodes_calling(
+        graph, lambda c: K.is_meth(c, 'popleft', 'pop') and
+        'event_list' in (K.recv_text(c) or ''))]
+    ctx.require(pops, 'the pop of the event queue', rule='C13.5', func=func)
+    kinds = [n for n in graph.nodes if n.kind == 'test' and
+             n.ast is not None and 'DirWatcherEvent.' in N.txt(n.ast) and
+             'MORE_PENDING' not in N.txt(n.ast)]
+    ctx.require(kinds, 'the dispatch on the event kind', rule='C13.5',
+                func=func)
+    for node in pops:
+        loop = K.enclosing_for(graph, node)
+        heads = [n for n in graph.nodes if n.kind == 'loop_head' and
+                 node in K.loop_body_nodes(n)]
+        stops = [graph.exit] + heads + ([loop] if loop is not None else [])
+        skip = K.find_path(node, stops, cut_node=lambda n: n in kinds,
+                           follow_exc=False)
+        ctx.ob('C13.5', func, node, skip is None,
+               'an event popped from the queue reaches the dispatch on its '
+               'kind on every path', path=K.describe(skip) if skip else None,
+               construct='popped event dispatched')
+
+
 def _running_owner(ctx, acm):
     mod = acm.module
     n = 0
@@ -967,6 +1030,8 @@ def check(ctx):
     _keep_running(ctx, acm, sync, graph, loop, cvar, ksync)
     _gating(ctx, acm)
     _wiring(ctx, acm)
+    _queue_dispatch(ctx)
+    _starts_idle(ctx, acm)
     _running_owner(ctx, acm)
     _nothing_dropped(ctx, sync, graph, loop, cvar)
 
